@@ -206,7 +206,7 @@ class Result:
         if len(self.samples) < 6:
             self.samples.append(s)
 
-    def finish(self, level="model_checking"):
+    def finish(self, level="model_checking", write_evidence=True):
         known = load_known()
         new = []
         for v in self.violations:
@@ -245,9 +245,10 @@ class Result:
             "wall_s": round(time.time() - self.t0, 2),
             "violations": len(new),
         }
-        os.makedirs(EVID, exist_ok=True)
-        with open(os.path.join(EVID, self.pid + ".json"), "w") as f:
-            json.dump(ev, f, indent=1)
+        if write_evidence:
+            os.makedirs(EVID, exist_ok=True)
+            with open(os.path.join(EVID, self.pid + ".json"), "w") as f:
+                json.dump(ev, f, indent=1)
         for v in new[:10]:
             print("VIOLATION property=%s replay=%s" % (self.pid, v.get("replay", "-")))
             print("  detail: %s" % json.dumps({k: v[k] for k in v if k != "replay"})[:600])
